@@ -147,7 +147,7 @@ class Render:
         elif head == 'false':
             self.src.append('\\iffalse ')
         elif head.startswith('num'):
-            self.src += ['\\ifnum', st['sa'], '\\ra%s' % head[3], '\\rb ']
+            self.src += ['\\ifnum', st['sa']] + ([st['sb']] if head[3] == '<' else []) + ['\\ra%s' % head[3], '\\rb ']
         elif head == 'odd':
             self.src += ['\\ifodd', st['sa'], '\\ra ']
         elif head.startswith('dim'):
@@ -211,7 +211,7 @@ def ref_eval(e, body, st, out):
                 elif head == 'false':
                     v = False
                 elif head == 'num<':
-                    v = _sg(st, 'sa') * st['ra'] < st['rb']
+                    v = _sg(st, 'sa') * _sg(st, 'sb') * st['ra'] < st['rb']
                 elif head == 'num=':
                     v = _sg(st, 'sa') * st['ra'] == st['rb']
                 elif head == 'num>':
@@ -302,6 +302,8 @@ def h_cond(e, family, lo, hi, wrap='none'):
     # optional signs in front of integer operands (TeX: any run of + and -)
     st['sa'] = e.char('sa', 43, 45)
     e.assume(e.one_of(st['sa'], '+-'))
+    st['sb'] = e.char('sb', 43, 45)
+    e.assume(e.one_of(st['sb'], '+-'))
     R = Render()
     if wrap == 'macro':
         R.src.append('\\def\\mac{')
